@@ -60,6 +60,11 @@ def gen_plan(seed, tier):
     frames.append((G.gen_frame(r, rich=True, nhosts=r.pick([2, 4]),
                                trunc=True),
                    r.randint(1, nports)))
+  rl = Rng(mix(seed, "local"))
+  if rl.chance(0.15):
+    # some of the traffic comes from the switch's local port
+    cfg["local_port"] = True
+    frames = [(fs, 0xfffe if rl.chance(0.4) else p) for fs, p in frames]
   r4 = Rng(mix(seed, "dst"))
   for fs, _ in frames:
     # destination addresses the datapath gives special meaning elsewhere
